@@ -39,7 +39,24 @@ type recoveryTS struct {
 type nodeID struct {
 	localIE *ie.IE
 	local   string
-	remote  string
+	// remote is written by the receive loop when the peer (re-)associates and read by every
+	// goroutine that sends on the connection: use remoteNodeID/setRemoteNodeID.
+	remote   string
+	remoteMu sync.RWMutex
+}
+
+func (pConn *PFCPConn) remoteNodeID() string {
+	pConn.nodeID.remoteMu.RLock()
+	defer pConn.nodeID.remoteMu.RUnlock()
+
+	return pConn.nodeID.remote
+}
+
+func (pConn *PFCPConn) setRemoteNodeID(id string) {
+	pConn.nodeID.remoteMu.Lock()
+	defer pConn.nodeID.remoteMu.Unlock()
+
+	pConn.nodeID.remote = id
 }
 
 // PFCPConn represents a PFCP connection with a unique PFCP peer.
